@@ -422,6 +422,8 @@ class Exec:
                 return OpaqueV(text[:30])
         if text.startswith('b"') or text in ("RangeFull", "core::ops::RangeFull") or text.startswith("{") or text.startswith("&"):
             return OpaqueV(text[:30])   # byte-string format templates, unit structs, promoted references: never inspected
+        if re.match(r"^(chrono::)?NaiveTime::MIN$", text):
+            return TimeV(z3.IntVal(0))
         m = re.match(r"^(?:f64::|core::f64::|std::f64::)(?:<impl f64>::|consts::)?(EPSILON|MAX|MIN|INFINITY|NAN)$", text)
         if m:
             import sys
@@ -825,6 +827,18 @@ class Exec:
             return
         m = re.match(r"^drop\((.*)\) -> \[return: (bb\d+), unwind.*\]$", t)
         if m:
+            # dropping a RefMut releases the exclusive borrow recorded by RefCell::borrow_mut (models.h_borrow_mut_tracked)
+            ty = fn.locals.get(m.group(1).strip(), "")
+            if ty.startswith(("RefMut<", "core::cell::RefMut<", "std::cell::RefMut<")):
+                v = env.get(m.group(1).strip())
+                loc, r = None, v
+                while isinstance(r, RefV):
+                    if r.loc is not None:
+                        loc = r.loc
+                        break
+                    r = r.v
+                if loc is not None and path.stores.get(("~borrow", loc)) == "mut":
+                    path = path.store("~borrow", loc, "borrow", None)
             yield from self.block(fn, m.group(2), env, path, depth, steps)
             return
         m = re.match(r"^switchInt\((.*)\) -> \[(.*)\]$", t)
